@@ -2,7 +2,7 @@
 from corr import kern_family
 from oracles import c02 as oracle
 
-GEN = ["Const"]
+GEN = ["Const", "Tol"]
 LEAN_TARGETS = ["MagpyVerif.Props.C02"]
 PROPS = ["MagpyVerif.Props.C02"]
 
@@ -12,7 +12,7 @@ def run(ctx, model_ok):
         st = kern_family.run_stream(ctx, ctx.scale(800, 40000))
         ctx.cov["evaluations"] = st["rows"]
         ctx.cov["distinct_nontrivial"] = st["nonzero_rows"] + sum(st["branch"].values())
-        ctx.cov["rule"] = ("rows cycle over dipole / sphere / straight segment / cuboid masks, scale 1e-3..1e3, observers stratified "
+        ctx.cov["rule"] = ("rows cycle over dipole / sphere / straight segment / cuboid masks / ... / cylinder / cylinder masks, scale 1e-3..1e3, observers stratified "
                            "(far, inside, exactly on faces/edges/corners/surface, along and beyond the segment); distinct_nontrivial = rows "
                            "with a non-zero field value plus mask rows (every row has fresh random parameters)")
         ctx.cov["traces_validated_against_impl"] = st["rows"]
@@ -21,6 +21,9 @@ def run(ctx, model_ok):
     if ctx.driver_ok:
         from corr import trimesh_family
         ctx.cov["correspondence_trimesh"] = trimesh_family.run_stream(ctx, ctx.scale(80, 3000))
+    if ctx.driver_ok:
+        from corr import trimesh_family as _tf
+        ctx.cov["correspondence_trimesh_inside"] = _tf.run_inside_stream(ctx, ctx.scale(150, 5000))
     budget = 10 if len(ctx.broken) else 1
     fails, ost = oracle.sweep(ctx, ctx.scale(200, 6000) * budget)
     ctx.failing += fails
@@ -29,12 +32,16 @@ def run(ctx, model_ok):
     ctx.cov.setdefault("distinct_nontrivial", ost["c02_rows"])
     ctx.cov.setdefault("samples", [ost])
     ctx.cov["not_shown"] = ["that the masks the wrappers compute are the geometric inside predicate of Cuboid/Cylinder/Segment/TriangularMesh "
-                            "(proved for Sphere; Tetrahedron: the barycentric test is modelled and shown order-independent, J/M and B branches use the same set; "
-                            "others by the oracle at stratified observers)",
-                            "Cylinder, CylinderSegment, TriangularMesh: consistency shown for the wrapper dispatch with the core and the inside mask as parameters "
-                            "(Triangle, Tetrahedron, Circle, Sphere, Dipole: shown for the full ported function)",
+                            "(proved for Sphere and for the Cylinder: `cylinder_j_is_indicator`; Tetrahedron: the barycentric test is modelled and shown order-independent, "
+                            "J/M and B branches use the same set; Cuboid/Segment by the oracle at stratified observers)",
+                            "CylinderSegment: consistency shown for the wrapper dispatch with the core and the inside mask as parameters (Cylinder, Triangle, Tetrahedron, Circle, "
+                            "Sphere, Dipole and TriangularMesh with its ray-casting inside test: shown for the full ported function; `cylinder_is_wrapCylinder` ties the ported "
+                            "BHJM_magnet_cylinder to the abstract dispatch). The TriangularMesh inside test is NOT the geometric inside predicate on planes through the ray start "
+                            "and a mesh edge: witness trimesh_ray_test_misses_interior_point, replayed by the trimesh-inside stream and recorded as a known finding",
+                            "Cylinder port: scipy's ellipk/ellipe are modelled through the repo's cel0 (assumption validated by the kern stream kind `cylinder`, 1e-9); "
+                            "only the single-row path of `cel` (cel0, n < 10) is modelled, not the vectorised celv",
                             "full mu0_single: false on this tree (known finding)"]
-    ctx.assumptions += ["wrapper dispatch modelled by hand with the core as a parameter; cuboid masks, sphere, dipole, segment, triangle, tetrahedron, circle ports tied by the kern stream"]
+    ctx.assumptions += ["wrapper dispatch modelled by hand with the core as a parameter; cuboid masks, sphere, dipole, segment, triangle, tetrahedron, circle, cylinder ports tied by the kern stream"]
 
 
 def replay(ctx, payload):
